@@ -49,14 +49,15 @@ from yaql.language import utils as yutils
 from yaql.standard_library import queries as yqueries
 
 ID = 'C10'
-LEAN_MODULES = ['Yaql.Props.C10', 'Yaql.Props.C10Hist', 'Yaql.Props.C10Ident']
+LEAN_MODULES = ['Yaql.Props.C10', 'Yaql.Props.C10Hist', 'Yaql.Props.C10Ident', 'Yaql.Props.C10Opts']
 REQUIRED_THEOREMS = ['Yaql.Props.C10.' + n for n in (
     'convOut_spec', 'plain', 'plain_root', 'plain_no_frozen_dict', 'succeeds_iff', 'succeeds_iff_lim',
     'outHashable_eq', 'fails_only_unhashable', 'total_partial', 'roundtrip', 'roundtrip_ext', 'roundtrip_only',
     'roundtrip_json', 'roundtrip_default', 'convIn_wf', 'current_fails', 'current_fails_full',
     'current_fails_unsatisfiable', 'k1_other_options', 'k1_roundtrip', 'views_finalise', 'views_finalise_of_dict',
     'views_documented', 'history_spec', 'roundtrip_history', 'roundtrip_history_default', 'memo_breaks_roundtrip',
-    'convIn_identity_free', 'memo_sound', 'memo_sound_empty', 'memo_breaks_transient_items')]
+    'convIn_identity_free', 'memo_sound', 'memo_sound_empty', 'memo_breaks_transient_items', 'engine_options_fixed',
+    'later_updates_invisible', 'view_follows_the_host')]
 TRUSTED = ['Python hashing modelled by the predicate `hashable` (list/dict/set/dict_keys/dict_items unhashable; '
            'tuples and FrozenDicts hash their content; iterators, values views and ordering objects hash by identity)',
            'set / dict de-duplication is not modelled: on every successful path the conversion of hash-position '
